@@ -27,6 +27,7 @@ const (
 	tKeySubst
 	tSigSubst
 	tSigFlip
+	tClockIDEmpty
 	nTamper
 )
 
@@ -40,7 +41,7 @@ const (
 )
 
 var tamperNames = [...]string{"payload-byte", "log-id", "next-add", "next-drop", "next-order", "refs-add", "refs-drop", "refs-order",
-	"version", "clock-id", "clock-time", "key-substituted", "sig-substituted", "sig-bitflip", "unsigned", "key-removed", "foreign-log-id"}
+	"version", "clock-id", "clock-time", "key-substituted", "sig-substituted", "sig-bitflip", "clock-id-emptied", "unsigned", "key-removed", "foreign-log-id"}
 
 type tamperResult struct {
 	e         iface.IPFSLogEntry
@@ -165,6 +166,12 @@ func tamper(r *Run, e iface.IPFSLogEntry, kind int, other iface.IPFSLogEntry, ot
 		}
 		i := r.Choose("t-pos", len(c.Sig))
 		c.Sig[i] ^= 1 << uint(r.Choose("t-bit", 8))
+		res.applied = true
+	case tClockIDEmpty:
+		if len(c.Clock.ID) == 0 {
+			return res
+		}
+		c.Clock = entry.NewLamportClock([]byte{}, c.Clock.Time)
 		res.applied = true
 	case bUnsigned:
 		c.Sig = nil
